@@ -211,6 +211,37 @@ def r7(ctx):
     C17.bin_source(ctx, 'C08-R7')
 
 
+@rule('C08', 'C08-R8', 'the molecules still buffered at the end of a region are emitted oldest first: the final flush of the iterator walks its buffers forward '
+                       '(insertion order) - a worker stops at the first molecule at or behind the end of its fetch window, which is only safe when the molecules '
+                       'behind the window come last, as they do in coordinate sorted input')
+def r8(ctx):
+    from .slots import MOLITER
+    f = ctx.fn(MOLITER, 'MoleculeIterator.__iter__')
+    main = [k for k, s_ in enumerate(f.body) if isinstance(s_, ast.For) and 'matePairIterator' in src(s_.iter)]
+    if not main:
+        raise AnalysisError('MoleculeIterator.__iter__: read loop not found')
+    tail = f.body[main[-1] + 1:]
+    ys = [y for s_ in tail for y in ast.walk(s_) if isinstance(y, (ast.Yield, ast.YieldFrom))]
+    ctx.need('C08-R8', len(ys), 1, 'yields of the final flush')
+    backwards = []
+    for s_ in tail:
+        for n in ast.walk(s_):
+            if isinstance(n, ast.Call) and isinstance(n.func, ast.Attribute) and n.func.attr == 'popitem' and not any(k.arg == 'last' and src(k.value) == 'False' for k in n.keywords) \
+                    and not (n.args and src(n.args[0]) == 'False'):
+                backwards.append((n, 'popitem() takes the entry inserted LAST'))
+            elif isinstance(n, ast.Call) and isinstance(n.func, ast.Attribute) and n.func.attr == 'pop' and not n.args and 'molecules' in src(n.func.value):
+                backwards.append((n, 'pop() takes the LAST element'))
+            elif isinstance(n, ast.Call) and dotted(n.func) == 'reversed' and 'molecules' in src(n):
+                backwards.append((n, 'reversed() walks the buffer backwards'))
+            elif isinstance(n, ast.Subscript) and isinstance(n.slice, ast.Slice) and n.slice.step is not None and src(n.slice.step) == '-1' and 'molecules' in src(n.value):
+                backwards.append((n, 'a [::-1] slice walks the buffer backwards'))
+    for n, why in backwards[:1]:
+        ctx.emit('C08-R8', False, MOLITER, n, f'final flush: `{src(n)[:60]}` - {why}: the molecules with the highest coordinates are emitted first, a worker that stops at the first molecule behind '
+                 f'its fetch window then drops every buffered molecule of its bin', key='flush-order', what='MoleculeIterator: final flush emits the buffered molecules newest first')
+    if not backwards:
+        ctx.emit('C08-R8', True, MOLITER, tail[0] if tail else f, f'final flush walks the buffers forward ({len(ys)} yield site(s))', key='flush-order')
+
+
 META = {
     'text': ('Decides: the per-job ownership test equals "other contig or site outside the half-open [start, end)" on every ordering, and the '
              'tested site is the molecule cut site; the early stop compares the site with the FETCH end; reads are fetched from the fetch window; '
